@@ -25,9 +25,22 @@
 #define POW2(x) ((x) != 0 && ((x) & ((x) - 1)) == 0)
 struct cds_lfht HT; struct cds_lfht_alloc AL; static struct rcu_flavor_struct FL;
 unsigned long G_queued, G_malloc_fail, G_mallocs, G_frees, G_seq, G_q_seq, G_init_seq, G_reg, G_resize_calls, G_resize_locked, G_resize_reg, G_empty, G_delb_calls, G_delb_ret, G_splitfree;
-void *G_q_work, *G_q_fn, *G_malloced, *G_freed;
+void *G_q_work, *G_q_fn, *G_malloced, *G_freed; unsigned long G_delb_reg;
 static void *my_malloc(void *st, size_t n) { (void) st; G_mallocs++; if (G_malloc_fail) return 0; G_malloced = malloc(n); return G_malloced; }
-static void my_free(void *st, void *p) { (void) st; G_frees++; G_freed = p; }
+/* releasing the table itself: from here on its memory belongs to the allocator (the C07 demo allocator unmaps it).  The harness poisons
+ * every pointer field, so that a later read of the table by the library is observed: a call through ht->flavor lands in h_after_release */
+unsigned long G_ht_released, G_use_after_release;
+static void h_after_release(void) { G_use_after_release = 1; }
+static struct rcu_flavor_struct FL_POISON;
+static void my_free(void *st, void *p)
+{
+	(void) st; G_frees++; G_freed = p;
+	if (p == (void *) &HT) {
+		G_ht_released = 1;
+		FL_POISON.register_thread = FL_POISON.unregister_thread = h_after_release;
+		HT.flavor = &FL_POISON; HT.caller_resize_attr = (pthread_attr_t *) 0xdeadUL; HT.split_count = (struct ht_items_count *) 0xdeadUL;
+	}
+}
 void urcu_workqueue_queue_work(struct urcu_workqueue *wq, struct urcu_work *work, void (*func)(struct urcu_work *work))
 { (void) wq; G_queued++; G_q_work = work; G_q_fn = (void *) func; G_q_seq = ++G_seq; if (HT.resize_initiated && func == do_resize_cb) G_init_seq = 1; /* initiated must be set AFTER queuing, else a failed queue leaves it stuck - informational */ }
 static void os_lock_hook(pthread_mutex_t *m) { (void) m; }
@@ -40,8 +53,8 @@ __CPROVER_assigns(G_resize_calls, G_resize_locked, G_resize_reg)
 __CPROVER_ensures(G_resize_calls == __CPROVER_old(G_resize_calls) + 1 && G_resize_locked == (unsigned long) OS_HELD(&HT.resize_mutex) && G_resize_reg == G_reg)
 ;
 bool cds_lfht_is_empty(struct cds_lfht *ht) __CPROVER_requires(ht == &HT) __CPROVER_assigns() __CPROVER_ensures(__CPROVER_return_value == (G_empty != 0));
-int cds_lfht_delete_bucket(struct cds_lfht *ht) __CPROVER_requires(ht == &HT) __CPROVER_assigns(G_delb_calls) __CPROVER_ensures(G_delb_calls == __CPROVER_old(G_delb_calls) + 1 && __CPROVER_return_value == (int) G_delb_ret);
-static void free_split_items_count(struct cds_lfht *ht) __CPROVER_requires(ht == &HT) __CPROVER_assigns(G_splitfree) __CPROVER_ensures(G_splitfree == __CPROVER_old(G_splitfree) + 1);
+int cds_lfht_delete_bucket(struct cds_lfht *ht) __CPROVER_requires(ht == &HT && !G_ht_released) __CPROVER_assigns(G_delb_calls, G_delb_reg) __CPROVER_ensures(G_delb_calls == __CPROVER_old(G_delb_calls) + 1 && G_delb_reg == G_reg && __CPROVER_return_value == (int) G_delb_ret);
+static void free_split_items_count(struct cds_lfht *ht) __CPROVER_requires(ht == &HT && !G_ht_released) __CPROVER_assigns(G_splitfree) __CPROVER_ensures(G_splitfree == __CPROVER_old(G_splitfree) + 1);
 int cds_lfht_get_count_order_ulong(unsigned long x) __CPROVER_assigns()
 __CPROVER_ensures(x == 0 ? __CPROVER_return_value == -1 : (__CPROVER_return_value >= 0 && __CPROVER_return_value <= 64 && (__CPROVER_return_value == 64 || x <= (1UL << __CPROVER_return_value)) && (__CPROVER_return_value == 0 || x > (1UL << (__CPROVER_return_value - 1)))));
 
@@ -54,7 +67,7 @@ static void mk(void)
 	mx = 1UL << in_max_o; sz = 1UL << in_size_o; tg = 1UL << in_tgt_o;
 	HT.max_nr_buckets = mx; HT.size = sz; HT.resize_target = tg; HT.resize_initiated = (in_init & 1); HT.in_progress_destroy = (in_destroy & 1);
 	HT.flags = (int) (in_flags & 3); AL.malloc = my_malloc; AL.free = my_free; HT.alloc = &AL; FL.register_thread = h_reg; FL.unregister_thread = h_unreg; HT.flavor = &FL;
-	G_malloc_fail = in_mfail & 1; G_queued = G_mallocs = G_frees = G_seq = G_reg = 0;
+	G_malloc_fail = in_mfail & 1; G_queued = G_mallocs = G_frees = G_seq = G_reg = 0; G_ht_released = G_use_after_release = 0;
 }
 void h_lazy_grow(void)
 {
@@ -140,5 +153,17 @@ void h_destroy(void)
 		if (G_delb_ret) VERIF_ASSERT(r == -EPERM && G_frees == 0 && G_splitfree == 0, "destroy of a non-empty table: error of delete_bucket returned, nothing freed");
 		else VERIF_ASSERT(r == 0 && G_splitfree == 1 && G_frees == 1 && G_freed == (void *) &HT && (!ap || attr == &A), "destroy: counters and the table freed exactly once; attributes handed back");
 	}
+	VERIF_ASSERT(!G_use_after_release, "destroy: nothing of the table is used after it was handed back to the allocator");
 	VERIF_COVER((HT.flags & 1) && G_empty); VERIF_COVER(!(HT.flags & 1) && !G_delb_ret); VERIF_COVER((HT.flags & 1) && !G_empty);
+}
+/* the deferred half of destroy, run by the resize worker behind every queued resize */
+void h_destroy_cb(void)
+{
+	mk(); G_delb_ret = 0; G_delb_calls = 0; G_splitfree = 0; G_delb_reg = 0; HT.in_progress_destroy = 1;
+	do_auto_resize_destroy_cb(&HT.destroy_work);
+	VERIF_ASSERT(G_delb_calls == 1 && G_delb_reg == 1, "destroy work item: the bucket nodes are removed once, by a REGISTERED RCU thread");
+	VERIF_ASSERT(G_splitfree == 1 && G_frees == 1 && G_freed == (void *) &HT && G_ht_released, "destroy work item: counters and the table itself released exactly once");
+	VERIF_ASSERT(G_reg == 0, "destroy work item: the worker thread is unregistered again");
+	VERIF_ASSERT(!G_use_after_release, "destroy work item: releasing the table is its LAST use of it - the flavor's unregister_thread is reached through the table and must run before (an allocator that unmaps or recycles the memory makes any later read a use-after-free)");
+	VERIF_COVER(G_frees == 1);
 }
